@@ -23,6 +23,10 @@ struct Schedule {
     std::map<uint64_t, int64_t> latency_ms;   // backend I/O operation index -> virtual duration of that operation
 };
 
+// One record per scheduling point at which a choice is consumed (>= 2 candidates among enabled threads and sleepers).
+// Used by the bounded-preemption enumeration: a schedule prefix is the list of `chosen` indices.
+struct Decision { uint16_t n_enabled; int16_t cur_index; uint16_t chosen; };   // cur_index = position of the running thread among the enabled ones, -1 if it cannot continue; chosen = 0xffff for a time jump
+
 struct Stats { uint64_t steps = 0, switches = 0, switches_with_lock = 0, switches_between_peek_pop = 0, time_jumps = 0; bool queue_full_seen = false, queue_wrapped = false; };
 
 // Runs `app` as virtual thread 0 under the schedule; returns when every virtual thread has finished.
@@ -33,6 +37,7 @@ int spawn_app(const std::function<void()> & fn);
 void join_app(int tid);
 void yield_point(const char * why);           // extra scheduling point for the harness
 std::vector<Event> & trace();
+std::vector<Decision> & decisions();
 void record(const std::string & what, int64_t a = 0, int64_t b = 0, uint64_t hash = 0, int32_t rc = 0);
 Stats & stats();
 int64_t now_ms();
